@@ -10,8 +10,16 @@
    pair holding [median2] (twice the median) of that pair's scores; [final_sort] = ascending by score. *)
 From Coq Require Import List Arith NArith ZArith Bool Permutation Sorting.Sorted.
 From Outrank Require Import Common.Median Pipeline.Stream Pipeline.StreamProofs Pipeline.Aggregate
-  Pipeline.AggregateProofs Pipeline.C08Model Pipeline.C08ModelProofs.
+  Pipeline.AggregateProofs Pipeline.PerBatch Pipeline.C08Model Pipeline.C08ModelProofs.
 Import ListNotations.
+
+(* Hypotheses under which the model is a faithful reading of the code (stated next to every loop theorem):
+   - B >= 1 and s >= 1.  For s = 0 Python raises ZeroDivisionError while [N.modulo k 0 = k] would make [sstep] skip every
+     line: without the hypothesis the statements would be true of the model for the wrong reason.  Negative values are
+     not transcribed.
+   - heuristic <> 'Constant': [flush] always checkpoints; the code checkpoints a full batch only for a non-Constant
+     heuristic (the tail batch always).  With 'Constant' and no tail batch the real task writes its outputs and then ends
+     in FileNotFoundError at os.remove('ranking_checkpoint_tmp.tsv') (recorded as an observation in notes/C08.md). *)
 
 (* consumed rows, batch boundaries, tail rule: the batches are the full chunks of size B of the well-formed rows
    among every s-th line (1-based, file order), plus the remainder iff it has MORE than [ctail c] rows *)
@@ -60,13 +68,36 @@ Theorem C08_median2_meaning : forall l s, Permutation s l -> StronglySorted Z.le
               if Nat.even n then (nth (n / 2 - 1) s 0 + nth (n / 2) s 0)%Z else (2 * nth (n / 2) s 0)%Z.
 Proof. exact median2_sorted. Qed.
 
+(* "the median of its PER-BATCH scores": [C08_median] is about all ROWS that carry the pair.  If every batch that
+   evaluates pair k contributes the same number m > 0 of rows for k, all with that batch's score (the candidate list is
+   duplicate-free after repo commit b3d9d15: m = 1 for an ordered pair of distinct names, m = 2 for a self-pair, whose
+   mirror is itself), the aggregate's score is the median of one score per batch.  Otherwise it is a weighted median
+   ([C08_weighted_median_differs]: rows 1,1,1,1,5,5,9,9 give 3, the per-batch scores 1,5,9 give 5) - this was a defect
+   of the code with a binding cap, see notes/C08.md. *)
+Theorem C08_median_per_batch : forall m k brs, (0 < m)%nat -> uniform_batches m k brs -> In k (map fst (concat brs)) ->
+  lookup k (aggregate (concat brs)) = Some (median2 (per_batch_scores k brs)).
+Proof. exact aggregate_per_batch. Qed.
+Theorem C08_median_replicate : forall m l, (0 < m)%nat -> median2 (mrep m l) = median2 l.
+Proof. exact median2_mrep. Qed.
+Theorem C08_weighted_median_differs :
+  let k := (1%N, 1%N) in
+  let brs := [[(k, 1%Z); (k, 1%Z); (k, 1%Z); (k, 1%Z)]; [(k, 5%Z); (k, 5%Z)]; [(k, 9%Z); (k, 9%Z)]] in
+  median2 (scores_of k (concat brs)) = 6%Z /\ median2 (per_batch_scores k brs) = 10%Z.
+Proof. exact weighted_median_differs. Qed.
+(* the table the checker holds the written scores to: keeping one row per batch and ordered pair yields exactly the
+   per-batch scores, whatever the multiplicities were *)
+Theorem C08_per_batch_table : forall k brs, scores_of k (concat (map batch_once brs)) = per_batch_scores k brs.
+Proof. exact once_table_is_per_batch. Qed.
+
 (* ... which is a median in the usual sense: at most half of the scores lie strictly below it, at most half above *)
 Theorem C08_median_rank : forall l, l <> [] ->
   (2 * length (filter (below2 (median2 l)) l) <= length l)%nat /\
   (2 * length (filter (above2 (median2 l)) l) <= length l)%nat.
 Proof. exact median2_rank. Qed.
 
-(* the written table is a permutation of the aggregate in ascending score order *)
+(* the written table is a permutation of the aggregate in ascending score order.  Nothing is claimed about the order
+   of rows with EQUAL scores: the model sorts stably, pandas' sort_values uses an unstable quicksort; the harness
+   accepts any ascending arrangement (sortedb + equality as multisets). *)
 Theorem C08_sorted : forall t,
   Permutation (final_sort t) t /\ StronglySorted (fun r1 r2 : Aggregate.row => (snd r1 <= snd r2)%Z) (final_sort t).
 Proof. exact (fun t => conj (final_sort_perm t) (final_sort_sorted t)). Qed.
@@ -106,7 +137,9 @@ Theorem C08_check_sound : forall k ob oi oc of, verdict_ok (C08_check k (ob, oi,
   /\ length oc = length ref
   /\ (forall j, (j < length ref)%nat -> tables_close (aggregate (concat (map score (firstn (S j) ref)))) (nth j oc []))
   /\ StronglySorted Z.le (map snd of)
-  /\ tables_close (aggregate (concat (map score ref))) of.
+  /\ tables_close (aggregate (concat (map score ref))) of
+  /\ (forall b r r', In b ref -> In r (score b) -> In r' (score b) -> fst r = fst r' -> snd r = snd r')
+  /\ tables_close (aggregate (concat (map batch_once (map score ref)))) of.
 Proof. exact check_sound. Qed.
 
 Print Assumptions C08_batches.
@@ -119,6 +152,10 @@ Print Assumptions C08_median_rows.
 Print Assumptions C08_median_one_row_per_pair.
 Print Assumptions C08_scores_of.
 Print Assumptions C08_median2_meaning.
+Print Assumptions C08_median_per_batch.
+Print Assumptions C08_median_replicate.
+Print Assumptions C08_weighted_median_differs.
+Print Assumptions C08_per_batch_table.
 Print Assumptions C08_median_rank.
 Print Assumptions C08_sorted.
 Print Assumptions C08_checkpoint_prefix.
